@@ -1327,7 +1327,12 @@ func (schema *Schema) visitNotOperation(settings *schemaValidationSettings, valu
 		if v == nil {
 			return foundUnresolvedRef(ref.Ref)
 		}
-		if err := v.visitJSON(settings, value); err == nil {
+		// a valid value does not match the "not" schema: keep that schema's defaults out of it
+		tempValue := value
+		if settings.asreq || settings.asrep {
+			tempValue = deepcopy.Copy(value)
+		}
+		if err := v.visitJSON(settings, tempValue); err == nil {
 			if settings.failfast {
 				return errSchema
 			}
